@@ -196,8 +196,10 @@ def monitor(ck, H, summ, mayneg, rng, n):
     stats = {'runs': 0, 'solved': 0, 'solved_nc': 0, 'owing': 0, 'refund': 0, 'nc_due': 0, 'nc_over': 0, 'lines_checked': 0, 'itemizing': 0}
     results = []
     for (year, forms, sseed, prof, ov) in c15_scenarios(rng, n):
-        if year not in summ:
+        if not summ:
             continue
+        # a year whose forms could not be translated is still monitored on the real code, with the money lines of the nearest year
+        ysum = year if year in summ else min(summ, key=lambda y_: abs(y_ - year))
         r = scenarios.run_scenario(H, year, forms, sseed, prof, overrides=ov)
         stats['runs'] += 1
         if r['exc'] is None:
@@ -206,7 +208,7 @@ def monitor(ck, H, summ, mayneg, rng, n):
             continue
         stats['solved'] += 1
         vals = r['solver']._v.values
-        ml = money_lines(summ, year)
+        ml = money_lines(summ, ysum)
         inputs = dict(r['policy'].asked and [(a[0], a[1]) for a in r['policy'].asked] or [])
         neg_in = False
         for k_, v_ in inputs.items():
